@@ -228,6 +228,9 @@ def check_kernel(case, ctx):
     ctx.close(name + '.energy', np.array([q]), np.array([E]), 1e-9, bucket=name + '.energy-identity', scale=max(abs(E), np.abs(c).dot(np.abs(K)).dot(np.abs(c)) * 1e-3))
 
 
+R12A = 'R12a-assembly-connection-matrix-never-recomputed'
+
+
 def check_assembly(case, ctx):
     """PanelAssembly.get_k0_conn for either ordering of p1/p2 in the global vector + calc_kt_kr laws."""
     from compmech.panel.assembly import PanelAssembly
@@ -281,6 +284,30 @@ def check_assembly(case, ctx):
     with package('calc_kt_kr'):
         kts, krs = calc_kt_kr(pkg.make_panel(scaled(case['p1'])), pkg.make_panel(scaled(case['p2'])), ctype)
     ctx.close('kt.moduli-scaling', np.array([kts]), np.array([kt * e]), 1e-11, bucket='calc_kt_kr.moduli-scaling')
+    # the constants follow the panels' CURRENT laminates: the very objects used above are given the scaled moduli (attributes
+    # re-assigned, as in a parametric study) and must now yield what freshly defined panels with those moduli yield
+    for pobj, pc in ((p1, scaled(case['p1'])), (p2, scaled(case['p2']))):
+        L = pc['lam']
+        if L.get('uniform') and pc.get('uniform_form'):
+            pobj.laminaprop = tuple(L['laminaprops'][0])
+        else:
+            pobj.laminaprops = [tuple(q) for q in L['laminaprops']]
+    with package('calc_kt_kr'):
+        ktr, krr = calc_kt_kr(p1, p2, ctype)
+    ctx.close('kt.redefined', np.array([ktr]), np.array([kts]), 1e-13, bucket='calc_kt_kr.redefined-panels')
+    if kr is not None:
+        ctx.close('kr.redefined', np.array([krr]), np.array([krs]), 1e-13, bucket='calc_kt_kr.redefined-panels')
+        with package(name):
+            K2 = dense(ass.get_k0_conn())
+        try:
+            ctx.close(name + '.redefined', K2, e * K, 1e-10, bucket=name + '.redefined-panels')
+        except Violation as v:
+            # listed finding R12a: PanelAssembly keeps the first connection matrix for ever (`if self.k0_conn is not None: return`);
+            # signature re-derived: what comes back is exactly the matrix of the earlier definition
+            if np.array_equal(K2, K) and e != 1.:
+                ctx.known(R12A, v.bucket, v.msg)
+            else:
+                raise
     if kr is not None:
         ctx.close('kr.moduli-scaling', np.array([krs]), np.array([kr * e]), 1e-11, bucket='calc_kt_kr.moduli-scaling')
     ctx.ok(kt > 0 and (kr is None or kr > 0), 'calc_kt_kr.positive', 'kt=%r kr=%r' % (kt, kr))
